@@ -69,6 +69,16 @@ theorem C03_known_args_and_path :
     (tables.handler .pathOwn).act = .callsError := by
   decide
 
+/-- no failing step of a public method sits outside its `try .. self.error(..)`, except in parse_path
+the reading of the file and the delegation to parse_string (which has its own handler); row 6c of
+DESIGN section 7 was exactly such a call (`Path(..)` in parse_path).  An inclusion, so that a repair
+that brings `get_content` under a handler does not break it. -/
+theorem C03_no_uncovered_calls :
+    Jap.Gen.ExcFlow.uncovered .parseArgs = [] ∧ Jap.Gen.ExcFlow.uncovered .parseObject = [] ∧
+    Jap.Gen.ExcFlow.uncovered .parseString = [] ∧ Jap.Gen.ExcFlow.uncovered .parseEnv = [] ∧
+    (∀ c ∈ Jap.Gen.ExcFlow.uncovered .parsePath, c ∈ ["change_to_path_dir", "get_content", "parse_string"]) := by
+  decide
+
 /-- `_check_type` (and `_check_value_key` for plain types) wrap TypeError and ValueError into TypeError -/
 theorem C03_check_type_wraps :
     ∀ w ∈ [Wrapper.checkType, .checkValueKey], ∀ mode ∈ Mode.all, ∀ c ∈ [Exc.TypeError, .ValueError],
@@ -109,13 +119,34 @@ theorem C03_adapter_branches :
 
 /-! ## the routing theorem -/
 
+/-- one instance of the finite check (separate declarations so that they are checked in parallel) -/
+abbrev ClosedAt (mode : Mode) (top : Bool) : Prop :=
+  Closed tables mode top (cert mode top) = true ∧ RootsOk tables mode top (cert mode top) = true
+
+theorem C03_closed_yaml_f : ClosedAt .yaml false := ⟨by decide +kernel, by decide +kernel⟩
+theorem C03_closed_yaml_t : ClosedAt .yaml true := ⟨by decide +kernel, by decide +kernel⟩
+theorem C03_closed_json_f : ClosedAt .json false := ⟨by decide +kernel, by decide +kernel⟩
+theorem C03_closed_json_t : ClosedAt .json true := ⟨by decide +kernel, by decide +kernel⟩
+theorem C03_closed_toml_f : ClosedAt .toml false := ⟨by decide +kernel, by decide +kernel⟩
+theorem C03_closed_toml_t : ClosedAt .toml true := ⟨by decide +kernel, by decide +kernel⟩
+theorem C03_closed_jsonnet_f : ClosedAt .jsonnet false := ⟨by decide +kernel, by decide +kernel⟩
+theorem C03_closed_jsonnet_t : ClosedAt .jsonnet true := ⟨by decide +kernel, by decide +kernel⟩
+
 /-- the regenerated candidate tables are closed under "raise what is designed" and
 "emerge through the callee's handlers", and everything in flight inside a root
 region leaves the method acceptably — the finite check behind `C03_routing` -/
 theorem C03_flight_closed : ∀ mode top,
     Closed tables mode top (cert mode top) = true ∧ RootsOk tables mode top (cert mode top) = true := by
   intro mode top
-  cases mode <;> cases top <;> exact ⟨by decide +kernel, by decide +kernel⟩
+  cases mode <;> cases top
+  · exact C03_closed_yaml_f
+  · exact C03_closed_yaml_t
+  · exact C03_closed_json_f
+  · exact C03_closed_json_t
+  · exact C03_closed_toml_f
+  · exact C03_closed_toml_t
+  · exact C03_closed_jsonnet_f
+  · exact C03_closed_jsonnet_t
 
 /-- C03_routing.  For every public parse method, in both exit_on_error modes and
 every loader mode, for EVERY call path (of any depth: sub-commands inside
